@@ -2,6 +2,7 @@ package main
 
 import (
 	"fmt"
+	"strings"
 	"go/token"
 	"go/types"
 	"math/big"
@@ -35,6 +36,20 @@ func (fx *FuncExec) val(st *State, v ssa.Value) Val {
 	case *ssa.Builtin:
 		return Scalar{Term{"ref_nil", SRef}, x.Type()}
 	}
+	if in, ok := v.(ssa.Instruction); ok && fx.regionBefore != nil && fx.regionBefore(in) {
+		// region contract: a value computed before the region starts is arbitrary
+		if a, ok := v.(*ssa.Alloc); ok {
+			id := fx.c.newObj()
+			st.objs[id] = st.freshVal(a.Type().(*types.Pointer).Elem(), a.Comment, 0)
+			fx.entryObjs[id] = true
+			r := PtrV{Obj: id, Typ: a.Type()}
+			st.regs[v] = r
+			return r
+		}
+		r := st.freshVal(v.Type(), v.Name(), 0)
+		st.regs[v] = r
+		return r
+	}
 	fx.c.unsup("operand %T not evaluated", v)
 	r := st.freshVal(v.Type(), v.Name(), 0)
 	st.regs[v] = r
@@ -52,6 +67,11 @@ func (fx *FuncExec) scalarTerm(st *State, v Val, sort string) Term {
 }
 
 func (fx *FuncExec) safe(ps *pathState, in ssa.Instruction, kind, text string, goal Term) {
+	if fx.con != nil && fx.con.NoSafety {
+		// partial correctness only: the run-time check is assumed to pass (listed in the evidence)
+		ps.st.assume(goal)
+		return
+	}
 	fx.addObl(fmt.Sprintf("safe:%s#%d", kind, fx.siteOrd[in]), "safe", fx.propDefault(), text, fx.posStr(in.Pos()), false, ps.st, goal, ps.trail)
 	// continue under the assumption that the check passed (it is reported separately)
 	ps.st.assume(goal)
@@ -145,6 +165,15 @@ func (fx *FuncExec) step(ps *pathState, in ssa.Instruction, pred *ssa.BasicBlock
 		r := st.binop(x.Op, a, b, false)
 		if sc, ok := r.(Scalar); ok {
 			sc.Typ = x.Type()
+			// expensive bit-vector terms get a name: later reasoning about them is then mostly
+			// equational (the definition stays available to the solver)
+			if _, isbv := isBV(sc.T.Sort); isbv && (x.Op == token.MUL || x.Op == token.QUO || x.Op == token.REM) {
+				if _, lit := litValue(sc.T); !lit {
+					n := c.fresh(x.Name(), sc.T.Sort)
+					st.assume(tEq(n, sc.T))
+					sc.T = n
+				}
+			}
 			r = sc
 		}
 		st.regs[x] = r
@@ -228,7 +257,14 @@ func (fx *FuncExec) step(ps *pathState, in ssa.Instruction, pred *ssa.BasicBlock
 		}
 		st.regs[x] = st.freshVal(x.Type(), x.Name(), 0)
 	case *ssa.Convert:
-		st.regs[x] = st.convert(fx.val(st, x.X), x.Type())
+		r := st.convert(fx.val(st, x.X), x.Type())
+		if sc, ok := r.(Scalar); ok && strings.HasPrefix(sc.T.S, "(int2bv@") {
+			n := c.fresh(x.Name(), sc.T.Sort)
+			st.assume(tEq(n, sc.T))
+			sc.T = n
+			r = sc
+		}
+		st.regs[x] = r
 	case *ssa.ChangeType:
 		st.regs[x] = retype(fx.val(st, x.X), x.Type())
 	case *ssa.MakeInterface:
@@ -507,7 +543,7 @@ func (fx *FuncExec) mapUpdate(ps *pathState, x *ssa.MapUpdate) {
 }
 
 func (s *State) treeKStore(tr SeqTreeK, k Term, v Val) SeqTreeK {
-	if tr.Fields != nil {
+	if tr.Fields != nil || isStruct(tr.Typ) {
 		out := SeqTreeK{Typ: tr.Typ}
 		sv, ok := v.(StructV)
 		for i, f := range tr.Fields {
